@@ -42,9 +42,9 @@ func (t *tr) detCall(key string, con *Contract, pos token.Pos) {
 	if !t.detOn() {
 		return
 	}
-	if con != nil && con.Flags["deterministic"] == "true" || t.detAllowed(key) {
-		t.counters["det/call"]++
-		t.assert(tTrue, "det/call", fmt.Sprintf("%s#%d", key, t.counters["det/call"]), pos, "determinism: callee "+key+" is deterministic by its contract")
+	if con != nil && con.Flags["deterministic"] == "true" || t.detAllowed(key) || effectFreeByDefault(key) {
+		t.counters["det/call/"+key]++
+		t.assert(tTrue, "det/call", fmt.Sprintf("%s#%d", key, t.counters["det/call/"+key]), pos, "determinism: callee "+key+" is deterministic by its contract")
 		return
 	}
 	t.detViolation("call/"+key, pos, "call of "+key+", whose contract is not flagged deterministic")
